@@ -1,7 +1,7 @@
 (* C03 driver: runs write/read histories through the extracted codec models.
    stdin, one case per line:
      <codec> <T> <S> <chunk> <init-hex-bytes-or-"-"> ; op ; op ; ...
-   codec = raw | oop | sie | siefx ; T = 0..11 ; S = byte-order letters ; chunk = copy buffer in samples
+   codec = raw | oop | sie | sie! ; T = 0..11 ; S = byte-order letters ; chunk = copy buffer in samples
    init  = initial data file payload (raw bytes for raw/oop, SIE records for sie)
    ops:  P <p> c1 c2 ...   put samples (component patterns, field type) at sample p
          G <p> <n>         get n samples at p (same handle)
@@ -93,8 +93,10 @@ let () =
              Buffer.add_string out ("f:" ^ hex_of_bytes (raw_layout x86_64 ty sex st'.o_old))
            end else begin
              (* sie: mode 0 closed, 1 read handle, 2 write handle *)
-             (* codec "siefx": the same machine with the shortcut of _GD_SampIndSeek repaired (proposed_fixes/C03-6.diff) *)
-             let sie_put = if codec = "siefx" then sie_put_fx else sie_put in
+             (* codec "sie": the variant of the shortcut of _GD_SampIndSeek that the source has (Gen/SieSeek.v);
+                codec "sie!": the other variant *)
+             let g = if codec = "sie" then seek_shortcut_guarded else not seek_shortcut_guarded in
+             let sie_put = sie_put_v g and sie_seek = sie_seek_v g in
              let st = ref (sie_open zero (sie_parse x86_64 ty sex initb)) and mode = ref 0 and bad = ref false in
              List.iter (fun op -> if not !bad then match toks op with
                | "P" :: p :: cs ->
